@@ -1,6 +1,7 @@
 import Proofs.Pareto
 import Proofs.Hypervolume3d
 import Proofs.HypervolumeNd4
+import Proofs.HypervolumeNd5c
 
 /-! The NDS pre-filter of `hypervolume` (`pointset[nds]`, model and proof of C11) composed with
 the hypervolume specification. -/
@@ -102,6 +103,21 @@ theorem hypervolumeCode_nd (ref : Vec) (pts : List Vec) (order : List Nat)
   have hf := front_sub_cover pts order h1 h2
   show compute ref (selectMask pts (ndsMask pts order)) = _
   rw [compute_nd ref _ hm (fun p hp => hrect p (hf.1 p hp)) (fun p hp => hle p (hf.1 p hp))
+      (fun p hp => hbig p (hf.1 p hp)) (fun p hp => hcls p (hf.1 p hp)),
+    hv_front ref pts order h1 h2]
+
+/-- **`hypervolume(pointset, ref)` end to end for any number `m ≥ 2` of objectives, larger class**: a
+coordinate may equal the reference's only in the objectives `0, 1, 2, 3` and the last one (`hcls`) — no
+restriction for `m ≤ 5`. -/
+theorem hypervolumeCode_nd5 (ref : Vec) (pts : List Vec) (order : List Nat)
+    (h1 : ∀ i, i < pts.length → i ∈ order) (h2 : ∀ i ∈ order, i < pts.length)
+    (hm : 2 ≤ ref.length) (hrect : Rect ref.length pts) (hle : ∀ p ∈ pts, wdVec p ref = true)
+    (hbig : ∀ p ∈ pts, ∀ k, k < ref.length → negInf < co p k - co ref k)
+    (hcls : ∀ p ∈ pts, ∀ k, k < ref.length → co p k = co ref k → k ≤ 3 ∨ k + 1 = ref.length) :
+    hypervolumeCode pts ref order = some (hv ref pts) := by
+  have hf := front_sub_cover pts order h1 h2
+  show compute ref (selectMask pts (ndsMask pts order)) = _
+  rw [compute_nd5 ref _ hm (fun p hp => hrect p (hf.1 p hp)) (fun p hp => hle p (hf.1 p hp))
       (fun p hp => hbig p (hf.1 p hp)) (fun p hp => hcls p (hf.1 p hp)),
     hv_front ref pts order h1 h2]
 
